@@ -172,7 +172,7 @@ func openSQL(sim *simrt.Sim, dir, journal string, memory bool, maxConns int, see
 		memDBCounter++
 		dsn = fmt.Sprintf("file:verifmem%d_%d?mode=memory&cache=shared", os.Getpid(), memDBCounter)
 	} else {
-		dsn = "file:" + filepath.Join(dir, "relay.db") + "?_journal_mode=" + journal + "&_busy_timeout=200"
+		dsn = "file:" + filepath.Join(dir, "relay.db") + "?_journal_mode=" + journal + "&_busy_timeout=20000" // real milliseconds inside SQLite: long enough never to expire under load
 	}
 	db, err := sql.Open("verif-sqlite3", dsn)
 	if err != nil {
@@ -225,17 +225,17 @@ type sqlBatch struct {
 }
 
 type SQLCase struct {
-	Events   []cacheEv      `json:"events"`
-	Batches  []sqlBatch     `json:"batches"`
-	Mode     string         `json:"mode"` // direct | handler
-	BulkNum  int            `json:"bulk_num,omitempty"`
-	Sessions int            `json:"sessions,omitempty"`
-	Memory   bool           `json:"memory"`
-	Journal  string         `json:"journal"`
-	MaxConns int            `json:"max_conns"`
-	Seed     uint32         `json:"xxhash_seed"`
-	AvoidKnown bool         `json:"avoid_known,omitempty"`
-	Sched    simrt.Schedule `json:"sched"`
+	Events     []cacheEv      `json:"events"`
+	Batches    []sqlBatch     `json:"batches"`
+	Mode       string         `json:"mode"` // direct | handler
+	BulkNum    int            `json:"bulk_num,omitempty"`
+	Sessions   int            `json:"sessions,omitempty"`
+	Memory     bool           `json:"memory"`
+	Journal    string         `json:"journal"`
+	MaxConns   int            `json:"max_conns"`
+	Seed       uint32         `json:"xxhash_seed"`
+	AvoidKnown bool           `json:"avoid_known,omitempty"`
+	Sched      simrt.Schedule `json:"sched"`
 }
 
 type sqlEngine struct{}
